@@ -46,6 +46,9 @@ REFUTED = []
 TRUSTED = [
     'correspondence harness harness/props/c10.py: observation of outcomes, cache and scratch collections after every call; '
     'module-level PARSER replaced by a fresh MathParser before every sequence',
+    'reference outcomes are taken in a pristine library state: forked worker, mitxgraders* / voluptuous* (or the calc package) '
+    'dropped from sys.modules and imported anew before the call; every mismatch is re-confirmed from such a state before it is '
+    'reported; perturb-then-probe batches look for state that outlives the parser object',
     'modelled, not verified: pyparsing\'s engine (replaced by the lexer + PEG model of Model/Lexer.v, Model/Parser.v and the '
     'callback-recording copy Model/ParserStateCb.v), Python set/dict semantics (sets as heap cells shared by reference, dict in '
     'insertion order), float arithmetic of evaluated values (compared within 1e-9 relative)',
